@@ -403,6 +403,14 @@ pub fn c01_pins() -> Vec<Pin> {
             expect: &[("q", 0x85 + 260)],
         },
         Pin {
+            name: "identifier_starting_with_a_keyword",
+            src: "unsigned char where, elsewhere, return_value, _value, gotox, r; unsigned char f() { return_value = 3; return 7; } void main() { r = 0; if (r) r = 5; elsewhere = 3; gotox = 2; r = f(); }",
+            init: &[("where", 0), ("_value", 0)],
+            x: 0,
+            y: 0,
+            expect: &[("elsewhere", 3), ("where", 0), ("return_value", 3), ("_value", 0), ("gotox", 2), ("r", 7)],
+        },
+        Pin {
             name: "short_array_rmw_incdec",
             src: "short sa[4]; short s, t; void main() { sa[2] = 0x0100; --sa[2]; s = sa[2]; Y = 1; sa[Y] = 0x01ff; sa[Y]++; t = sa[1]; }",
             init: &[],
